@@ -90,6 +90,10 @@ EXPLANATION += (
     ' Round 14: a test that relates x[-1] - x[0] to the length of x is last - first == count - 1 over a sorted, distinct x (R-ARITH/span-contiguity), also in the utils.utils helpers the anchored code calls.'
 )
 
+EXPLANATION += (
+    " Round 18: a converted sparse group's pointer array is not shaped like the input's (R-AXIS/converted-pointer-extent)."
+)
+
 RULE_TEXT = (
     "one obligation per (dispatcher, encoding member), per arm-"
     "distinctness relation, per cursor relation, per range step / slice "
